@@ -38,14 +38,18 @@ meta('C18', 'other', 'symbolic execution of rustc MIR (mirsym) + z3 (String theo
      assumptions=['tokio_postgres::Config setters overwrite (scalars) or append (host, hostaddr, port) as documented', 'z3 String theory for string equality and emptiness'])
 
 
-meta('C19', 'other', 'symbolic execution of rustc MIR (mirsym) + z3 (String theory): per-path obligations over symbolic inputs',
+meta('C19', 'other', 'symbolic execution of rustc MIR (mirsym) + z3 (String theory): per-path obligations over symbolic inputs; serde clause: Kani 0.68 / CBMC 6.11 proof harnesses over the monomorphised derived impls',
      explanation='builder() of the redis, cluster and sentinel Config, their Default impls and every From conversion between the connection descriptions and the redis '
                  "crate's types are executed from MIR with all payloads symbolic (strings as z3 String terms, ports, db numbers, flags) and every enum variant / Option tag enumerated; "
                  'obligations: both url(s) and connection(s) -> UrlAndConnectionSpecified and no client constructed; neither -> the documented default server; otherwise the client '
-                 'constructor receives exactly the named servers in order; a constructor error becomes ConfigError::Redis; forth-and-back conversion is the identity field by field.',
-     outside='the serde round trip of PoolConfig/Timeouts/QueueMode and the defaults of omitted sections (derive-generated visitor code driving a format crate: not encodable, see DESIGN.md section 10); '
+                 'constructor receives exactly the named servers in order; a constructor error becomes ConfigError::Redis; forth-and-back conversion is the identity field by field. '
+                 'Serde clause (family "serde round trip"): the derived Serialize / Deserialize impls of PoolConfig, Timeouts and QueueMode are compiled from /repo into the harness crate /verif/kani_serde '
+                 'and checked by Kani, one proof harness per document shape (every subset of the three timeouts x both queue modes; max_size and every seconds value kani::any()); PoolConfig -> tokens -> PoolConfig '
+                 'is the identity and documents that omit sections deserialise to the documented defaults; unwind 13 with unwinding assertions, a cover! vacuity witness per harness; failed harnesses are replayed natively.',
+     outside='serde clause: the text formats themselves (config / serde_json number formatting and parsing), sub-second parts other than the concrete ones of the harnesses (999999999, 0, 1 ns; thorough also 1000000, 999999, 500000000), documents with unknown or duplicate fields; '
              'the redis crate itself (Client::open etc. are models that record their arguments); url lists longer than 2',
-     assumptions=['redis::Client::open / ClusterClientBuilder / SentinelClient::build are models that record their arguments and succeed or fail arbitrarily'])
+     assumptions=['redis::Client::open / ClusterClientBuilder / SentinelClient::build are models that record their arguments and succeed or fail arbitrarily',
+                  'serde clause: the token format of /verif/kani_serde stands in for a self-describing format (structs as maps by field name); serde\'s own Duration impl is read in its sequence form'])
 
 
 SYNC_ASSUME = ['tokio::task::spawn_blocking: a queue of tasks each run atomically on a blocking thread in any order; dropping the JoinHandle does not cancel; panics are caught and returned through the handle',
